@@ -35,9 +35,9 @@ ASSUMPTIONS = [
     "a crash is 'the process stops between two Python-level file operations or inside a write after a prefix reached the file'",
     "the build system looks at the modification time of <name>.cdep; the touch is observed as a changed st_mtime_ns",
 ]
-BUDGET = {"quick": {"examples": 1280}, "thorough": {"examples": 160000, "deadline_s": 900}}
+BUDGET = {"quick": {"examples": 6400}, "thorough": {"examples": 160000, "deadline_s": 900}}
 
-CFG = gen.cfg(max_syms=8, p_choice=8, p_menu=6, p_if=10, type_weights=[(35, "bool"), (30, "int"), (15, "hex"), (10, "string"), (10, "float")], p_bare=8)
+CFG = gen.cfg(max_syms=8, p_choice=8, p_menu=6, p_if=10, type_weights=[(35, "bool"), (25, "int"), (10, "hex"), (22, "string"), (8, "float")], p_depends=55, p_bare=8, p_empty_string=15)
 SENTINEL_NS = 1_000_000_000 * 1_500_000_000
 
 
